@@ -1,10 +1,11 @@
-"""C08 — remotely freed memory is never lost (T3)."""
+"""C08 — remotely freed memory is never lost; producer/consumer use stays bounded (T3 + boundedness oracle)."""
+import os
 import vcommon as V
 from checks import t3common
 
 TRUSTED = ['Lean 4 kernel', 'atomics are sequentially consistent in the model (C11 weak-memory effects and data races on non-atomic fields are outside the model)',
            'hooks/verif_hooks.h + harness/vsched.h (deterministic scheduler), harness/t3_delayed.c (event log), Driver/DelayedValidate.lean (mapping of logged events to model labels; owner-local steps placed from the observed list heads)',
-           'the model covers one page with its owner and any number of remote frees; other pages/heaps are covered by the scheduler stress oracle only']
+           'the model covers one page with its owner and any number of remote frees; other pages/heaps are covered by the scheduler stress oracle and, for boundedness, by the producer/consumer oracle harness/c08_pc.c (heap areas per round with bounded live data) only']
 
 def run(chk):
     chk.trusted = TRUSTED
@@ -16,3 +17,24 @@ def run(chk):
     with V.Scratch() as d:
         t3common.delayed_traces(chk, d, n)
         t3common.stress(chk, d, 60 if chk.tier == 'quick' else 600, modes=(0, 4), keys=("blocks_left_behind", "abandoned_left_behind", "lost_block", "alloc_failed"))
+        # boundedness oracle: owner allocates, a helper thread frees (semaphore hand-over), bounded live data, several rounds: the number of heap areas must not keep growing
+        h = os.path.join(d, 'c08_pc')
+        ok, log = V.cc_harness(os.path.join(V.HARNESS, 'c08_pc.c'), h, flags=list(V.RELEASE) + ['-DVERIF_STATIC_C="%s/src/static.c"' % V.REPO])
+        if not ok:
+            chk.broken_tie('producer/consumer harness does not compile against the current tree', log[-1500:]); return
+        sizes = (16, 64, 300, 1000, 4000, 9000, 20000, 40000, 200000) if chk.tier == 'thorough' else (64, 1000, 9000, 40000)
+        rounds = 16 if chk.tier == 'thorough' else 8
+        jobs = [([h, str(pat), str(bs), str(rounds)], None, 300) for pat in (0, 1, 2) for bs in sizes]
+        npc = 0
+        for (cmd, _, _), (rc, out, err) in zip(jobs, V.pmap(jobs)):
+            args = {'cmd': 'harness/c08_pc ' + ' '.join(cmd[1:]), 'pattern': cmd[1], 'block_size': cmd[2], 'rounds': cmd[3],
+                    'how_to_run': 'gcc -DNDEBUG -DMI_BUILD_RELEASE -I/repo/include -DVERIF_STATIC_C=\\"/repo/src/static.c\\" harness/c08_pc.c -lpthread; ./a.out ' + ' '.join(cmd[1:])}
+            if rc != 0 or 'DONE' not in out:
+                chk.violation('C08/producer-consumer-crash', 'allocator crashed in the producer/consumer workload (%s): %s' % (' '.join(cmd[1:]), (err or out)[-300:].replace('\n', ' ')), args); continue
+            for l in out.splitlines():
+                if l.startswith('FAIL'):
+                    chk.violation('C08/' + l.split()[1], l[5:400], args)
+            r = [l for l in out.splitlines() if l.startswith('R ')]
+            chk.count(len(r)); npc += len(r); chk.distinct(('pc',) + tuple(cmd[1:3]))
+        chk.extra['producer_consumer_rounds'] = npc
+        chk.log('producer/consumer rounds checked: %d' % npc)
